@@ -5,7 +5,8 @@
 (*         se (Fix), sg (int)          from dms_tuple() / ra_tuple()       *)
 (*  vs = sign of the value (-1, 0, 1), transported apart from v            *)
 (*  "str": v, ra, fancy 0/1, nd, ok 0/1 (string tokenised), F = 3 fields   *)
-(*         [neg, a, p] from dms_str() / ra_str()                           *)
+(*         [neg, a, p] from dms_str() / ra_str(); tight = 1: a value below *)
+(*         one degree / hour, judged with a slack of 2e-15 instead of 1e-9 *)
 (* For ra = 1 the value compared is v / 15 (hours), modulo 24.             *)
 (***************************************************************************)
 EXTENDS TraceKit, Sexagesimal
@@ -21,7 +22,7 @@ Verdict ==
        ELSE Viol("STR_NO60", No60(Ev.F))
        \cup Viol("STR_FIELDS", Canonical(Ev.F, Unit(Ev)))
        \cup Viol("STR_SIGN_ONCE", SignOnce(Ev.vs = -1, Ev.F))
-       \cup Viol("STR_READBACK", ReadBack(Val(Ev), Ev.nd, Ev.F, Unit(Ev)))
+       \cup Viol("STR_READBACK", ReadBackTol(Val(Ev), Ev.nd, Ev.F, Unit(Ev), IF Ev.tight = 1 THEN Dec(2, 15) ELSE Tol9))
   [] OTHER -> {"UNKNOWN_KIND"}
 
 Init == TraceInit(0)
